@@ -197,8 +197,17 @@ Definition arg_read (h : heap) (a : argv) : res Z :=
   | ARef src i => list_get h src i
   end.
 
+(* forming the reference `list.data[index]` at the call site: binding a reference to an element of a null
+   buffer is undefined behaviour on its own (UBSan: reference binding to null pointer), read or not *)
+Definition arg_bind (a : argv) : res unit :=
+  match a with
+  | AVal _ => Safe tt
+  | ARef src _ => match data src with Some _ => Safe tt | None => Unsafe OutOfBounds end
+  end.
+
 (* T *next = new T[size + 1]; copy; next[size] = value (reads the reference); delete[] data; ... *)
 Definition list_append_a (h : heap) (l : lval) (a : argv) : res (heap * lval) :=
+  do _ <- arg_bind a;
   let '(h1, nx) := alloc h (size l + 1) in
   do h2 <- copy_loop h1 (data l) (Some nx) 0 (size l);
   do v <- arg_read h2 a;
@@ -224,6 +233,7 @@ Definition list_remove (h : heap) (l : lval) (v : Z) : res (heap * lval) :=
 (* `value` is only read by the comparisons of the search loop (never when the list is empty), on
    the unchanged heap, and never after delete[] *)
 Definition list_remove_a (h : heap) (l : lval) (a : argv) : res (heap * lval) :=
+  do _ <- arg_bind a;
   if size l =? 0 then Safe (h, l)
   else do v <- arg_read h a; list_remove h l v.
 
